@@ -445,10 +445,49 @@ func predUpdate(c updCase, o *evid.Obs) error {
 	}
 	seq := make([]seqState, len(c.Faults))
 	mode := func(f faultSpec) fakech.CtrlFaultMode {
-		if f.Mode == "after" {
+		switch f.Mode {
+		case "after":
 			return fakech.CtrlFailAfter
+		case "kill-before":
+			return fakech.CtrlKillBefore
+		case "kill-after":
+			return fakech.CtrlKillAfter
 		}
 		return fakech.CtrlFailBefore
+	}
+	// kill modes: the attempt runs in its own goroutine which the fake parks forever at the
+	// fault point (no deferred function, no error path of qryn runs — a killed process); the
+	// goroutine is leaked on purpose, the catalogue is released at the end of the case
+	hasKill := false
+	for _, f := range c.Faults {
+		if strings.HasPrefix(f.Mode, "kill") {
+			hasKill = true
+		}
+	}
+	if hasKill {
+		defer conn.Discard()
+	}
+	errKilled := fmt.Errorf("killed at the fault point")
+	runAttempt := func() error {
+		if !hasKill {
+			return runUpdate(conn, c.Cfg)
+		}
+		done := make(chan error, 1)
+		go func() {
+			defer func() {
+				if p := recover(); p != nil {
+					done <- fmt.Errorf("panic: %v", p)
+				}
+			}()
+			done <- runUpdate(conn, c.Cfg)
+		}()
+		select {
+		case err := <-done:
+			return err
+		case <-conn.Parked():
+			o.Tag("killed-attempt")
+			return errKilled
+		}
 	}
 	disarmed := false
 	kindOf := map[*fakech.CtrlCall]string{}
@@ -514,7 +553,7 @@ func predUpdate(c updCase, o *evid.Obs) error {
 		run := conn.BeginRun()
 		migSeen = 0
 		nFired := len(fired)
-		lastErr = runUpdate(conn, c.Cfg)
+		lastErr = runAttempt()
 		if lastErr == nil {
 			if len(fired) > nFired {
 				// an injected error did not surface: legitimate only if the statement was re-issued and succeeded
@@ -828,6 +867,10 @@ func enumerateSingle(yield func(updCase)) {
 				ek := fakech.CtrlErrorKinds[(i+5*mi)%len(fakech.CtrlErrorKinds)]
 				yield(updCase{Cfg: cfg, Faults: []faultSpec{{Run: 0, By: "call", At: i, Mode: m, Err: ek}}})
 			}
+			// killed at the statement: the call never returns
+			for _, m := range []string{"kill-before", "kill-after"} {
+				yield(updCase{Cfg: cfg, Faults: []faultSpec{{Run: 0, By: "call", At: i, Mode: m}}})
+			}
 		}
 	}
 }
@@ -910,6 +953,9 @@ func genMulti(rt *rapid.T) updCase {
 	for i := 0; i < nf; i++ {
 		f := faultSpec{Run: run, Mode: rapid.SampledFrom([]string{"before", "after"}).Draw(rt, "fmode"),
 			Err: rapid.SampledFrom(fakech.CtrlErrorKinds).Draw(rt, "errkind")}
+		if rapid.IntRange(0, 7).Draw(rt, "kill") == 0 {
+			f.Mode = "kill-" + f.Mode // the process is killed there instead of seeing an error
+		}
 		if i == 0 {
 			f.By = "call"
 			if len(hot) > 0 && rapid.IntRange(0, 2).Draw(rt, "hot") == 0 {
